@@ -363,7 +363,7 @@ theorem astar_generated (hs : SqrtOk K) (h w : Nat) (cross : Cell → Bool) (con
 
 /-- **the body of the neighbour loop is `relax`**: executing the generated statement on the variables
     of the popped cell `u`, the offset and the state either ends in `continue` -- then the model
-    leaves the state unchanged -- or stores `d_from_start`, `cost`, `is_open = True` and the parent
+    leaves the state unchanged -- or stores `d_from_start` (`g`), `cost` (`f`), `is_open = True` and the parent
     `(py, px)` for the neighbour, and these are exactly the model's new state (closed cells are
     skipped; an open cell is overwritten unless the new distance is strictly greater; out-of-raster
     and barrier / NaN cells are skipped) -/
@@ -373,8 +373,8 @@ theorem relaxation_generated (e : Env K) (hx : e.ops = fieldOps stepK heurK)
     s'.failed = none ∧
     (s'.halted = true → relax e u st off = st) ∧
     (s'.halted = false →
-      ∃ g f, s'.env "d_from_start@v" = some g ∧ s'.env "cost@v" = some f ∧ s'.env "is_open@v" = some 1 ∧
-        s'.env "parent_ys@v" = some (u.1 : K) ∧ s'.env "parent_xs@v" = some (u.2 : K) ∧
+      ∃ g f, s'.env "g@v" = some g ∧ s'.env "f@v" = some f ∧ s'.env "open@v" = some 1 ∧
+        s'.env "par_y@v" = some (u.1 : K) ∧ s'.env "par_x@v" = some (u.2 : K) ∧
         relax e u st off = relaxed st u (u.1 + off.1, u.2 + off.2) g f) :=
   relax_generated e stepK heurK hx stepK_eq heurK_eq dataV bars hc u off st
 
@@ -394,11 +394,15 @@ theorem min_cost_generated (e : Env K) (hx : e.ops = fieldOps stepK heurK) (st :
     value; no conversion of the list), and `_is_inside` is `inside` -/
 theorem barrier_and_inside_tests_generated (v : Val) (bars : List Val) (hv : v.finiteOrNaN)
     (hb : ∀ b ∈ bars, b.finiteOrNaN) (h w : Nat) (c : Cell) :
-    notCrossable.eval ⟨XrsVerif.envOf [(notCrossableValue, (valNV v : NV K))], fun _ _ _ => none, vecOf (bars.map valNV)⟩
+    notCrossable.eval ⟨XrsVerif.envOf [("value", (valNV v : NV K))], fun _ _ _ => none, vecOf (bars.map valNV)⟩
       = notCrossableV v bars ∧
     isInside.cell (argEnv isInside [some (c.1 : K), some (c.2 : K), some (h : K), some (w : K)])
       (fun _ _ _ => none) (fun _ => []) = some (if inside h w c then 1 else 0) :=
   ⟨notCrossable_generated v bars hv hb, isInside_generated h w c⟩
+
+/-- `a_star_search` hands the caller's barrier list to the kernels as `np.array(barriers)`: no `astype`, no
+    `dtype=`, no rounding (seeded change C14-3 adds `.astype(surface.dtype)`) -/
+theorem barrier_list_not_converted : barrierCasts = [] := by decide
 
 /-- **`_get_pixel_id` is `pixelId`**: the generated row / column expressions under `int(...)` are
     `|p - c0| / cellsize + 1/2` with the axis' own first coordinate and cell size; the value is
